@@ -79,7 +79,13 @@ class Resolver:
         if head:
             h = head.group(1).split(".")[-1]
             if h in ANNOT_TAGS:
-                return {ANNOT_TAGS[h]}
+                tag = ANNOT_TAGS[h]
+                inner = re.findall(r"[A-Za-z_][A-Za-z_0-9]*", txt[head.end():])
+                elem = [i for i in inner if i in self.p.classes]
+                if elem:
+                    # Dict[K, V] -> value type is the last class named; List[V] -> V
+                    return {f"{tag[:-1]}:{elem[-1]}>"}
+                return {tag}
         for ident in re.findall(r"[A-Za-z_][A-Za-z_0-9]*", txt):
             if ident in self.p.classes:
                 out.add(ident)
@@ -131,6 +137,8 @@ class Resolver:
             return out
         if isinstance(t, ast.Call):
             return self._typeof_call(t, fn, events, depth)
+        if isinstance(t, ast.Subscript):
+            return self.elem_type(self.typeof(t.value, fn, events, depth + 1), depth + 1)
         if isinstance(t, ast.Await):
             return self.typeof(t.value, fn, events, depth + 1)
         if isinstance(t, ast.Constant):
@@ -153,6 +161,42 @@ class Resolver:
                 out |= self.typeof(v, fn, events, depth + 1)
             return out
         return set()
+
+    def elem_type(self, tags: Set[str], depth=0) -> Set[str]:
+        """Type of the elements obtained by iterating / indexing a value of the given types."""
+        out: Set[str] = set()
+        if depth > 12:
+            return out
+        for b in tags:
+            if b.startswith("<") and ":" in b:
+                out.add(b[1:-1].split(":", 1)[1])
+                continue
+            c = self.p.classes.get(b)
+            if c is None:
+                continue
+            it = self.p.lookup_method(c, "__iter__") or self.p.lookup_method(c, "__getitem__")
+            if it is None:
+                continue
+            key = ("elem", it.key)
+            if key in self._busy:
+                continue
+            self._busy.add(key)
+            try:
+                for n in _own_nodes(it.node):
+                    if isinstance(n, ast.Return) and n.value is not None:
+                        v = n.value
+                        if isinstance(v, ast.Call) and isinstance(v.func, ast.Name) and v.func.id == "iter" and v.args:
+                            v = v.args[0]
+                            if isinstance(v, ast.Call) and isinstance(v.func, ast.Attribute) and v.func.attr == "values":
+                                v = v.func.value
+                            out |= self.elem_type(self.typeof(v, it, (), depth + 1), depth + 1)
+                        elif isinstance(v, ast.GeneratorExp):
+                            out |= self.elem_type(self.typeof(v.generators[0].iter, it, (), depth + 1), depth + 1)
+                        elif isinstance(v, ast.Subscript):
+                            out |= self.elem_type(self.typeof(v.value, it, (), depth + 1), depth + 1)
+            finally:
+                self._busy.discard(key)
+        return out
 
     def _typeof_name(self, name: str, fn: Optional[FuncInfo], events, depth) -> Set[str]:
         if name.startswith("$"):
@@ -200,6 +244,12 @@ class Resolver:
                         elif isinstance(n, ast.AnnAssign) and isinstance(n.target, ast.Name) and n.target.id == name:
                             found = True
                             out |= self.annot_types(n.annotation, f.module)
+                        elif isinstance(n, (ast.For, ast.AsyncFor)) and isinstance(n.target, ast.Name) and n.target.id == name:
+                            found = True
+                            out |= self.elem_type(self.typeof(n.iter, f, events, depth + 1), depth + 1)
+                        elif isinstance(n, ast.comprehension) and isinstance(n.target, ast.Name) and n.target.id == name:
+                            found = True
+                            out |= self.elem_type(self.typeof(n.iter, f, events, depth + 1), depth + 1)
                     if found:
                         return out
                 finally:
@@ -287,8 +337,14 @@ class Resolver:
                         at = self.attr_type(b, f.attr, depth + 1)
                         out |= {x[4:] for x in at if x.startswith("ref:")}
                         out |= {x[5:] for x in at if x.startswith("type:")}
-                if b == "<dict>" and f.attr == "copy":
-                    out.add("<dict>")
+                if b.startswith("<dict") and f.attr == "copy":
+                    out.add(b)
+                if b.startswith("<dict:") and f.attr in ("get", "pop", "setdefault"):
+                    out.add(b[1:-1].split(":", 1)[1])
+                if b.startswith("<") and ":" in b and f.attr in ("values",):
+                    out.add("<list:" + b[1:-1].split(":", 1)[1] + ">")
+                if b.startswith(("<deque:", "<list:")) and f.attr in ("pop", "popleft"):
+                    out.add(b[1:-1].split(":", 1)[1])
             if not base:
                 # module attribute call e.g. threading.local(), asyncio.gather()
                 nm = f.attr
@@ -465,6 +521,11 @@ class Resolver:
                     if t is not None:
                         return Resolution("typed", [t])
                 if _assigned_locally(ff.node, nm):
+                    tys = self._typeof_name(nm, ff, events, 0)
+                    calls = [self.p.lookup_method(self.p.classes[t], "__call__") for t in tys if t in self.p.classes]
+                    calls = [c for c in calls if c is not None]
+                    if calls:
+                        return Resolution("typed", calls)
                     return Resolution("slot", tags=[f"local:{ff.qualname}.{nm}"])
                 ff = ff.parent
             g = self.lookup_global(nm, fn.module)
@@ -493,7 +554,7 @@ class Resolver:
             tags: List[str] = []
             for b in sorted(base):
                 if b.startswith("<"):
-                    tags.append(f"{b[1:-1]}.{m}")
+                    tags.append(f"{b[1:-1].split(':')[0]}.{m}")
                     continue
                 if b.startswith("ref:"):
                     tags.append(f"ref.{m}")
